@@ -348,7 +348,9 @@ OnRecv(st0, e) ==
   ELSE LET dup == e.did = st.lastDid /\ e.t - 1000 < st.lastProc /\ ~st.lastQU
            hasQU == \E k \in 1..Len(e.qs) : e.qs[k][3] = 1
            carried == IF e.resp THEN {Items(e)[k].id : k \in {j \in 1..Len(Items(e)) : Items(e)[j].ttl > 0}} ELSE {}
-           stx == [st EXCEPT !.tx = [i \in Rids |-> IF i \in carried THEN e.t ELSE st.tx[i]]]     \* delivered = seen (strict reading)
+           withdrawn == IF e.resp THEN {Items(e)[k].id : k \in {j \in 1..Len(Items(e)) : Items(e)[j].ttl = 0}} ELSE {}
+           \* delivered = seen (strict reading); a goodbye voids the earlier sightings of the record
+           stx == [st EXCEPT !.tx = [i \in Rids |-> IF i \in carried THEN e.t ELSE IF i \in withdrawn THEN -100000 ELSE st.tx[i]]]
        IN IF dup THEN stx
           ELSE LET st1 == [stx EXCEPT !.lastDid = e.did, !.lastProc = e.t, !.lastQU = hasQU] IN
             IF e.resp THEN Settle([st1 EXCEPT !.seen = IngestX(Rids, RR, IsPtr, st.seen, Items(e), e.t)], e.t)
